@@ -1,6 +1,6 @@
 #!/bin/sh
 # usage: tools/keep8.sh - validate and keep the round-8 held-out changes under /tmp/seed8/out/<pid>/k{1,2}
-# (one demo.py per variant); records held-out detection (tools/heldout.py r8) for every kept one.
+# (one demo.py per variant); records held-out detection (tools/heldout.py round8) for every kept one.
 cd "$(dirname "$0")/.."
 ls -d $(for p in ${PIDS:-C*}; do echo /tmp/seed8/out/$p/k*; done) 2>/dev/null | while read d; do
   [ -f $d/patch.diff ] && [ -f $d/demo.py ] && echo $d
@@ -10,5 +10,5 @@ done | xargs -P ${JOBS:-8} -I{} sh -c '
   out=$(/venv/bin/python tools/evalseed.py $p $d --keep 2>&1 | grep -v conda)
   echo "$p $v $(echo "$out" | grep -E "\"valid\"|\"caught\"|demo_.*rc|kept" | tr -d "\n" | tr -s " ")"
   echo "$out" > /tmp/seed8/out/$p/$v/eval.log
-  [ -d seeded/$p-$v ] && /venv/bin/python tools/heldout.py r8 $p $v 2>&1 | grep -v conda | cut -c1-200
+  [ -d seeded/$p-$v ] && /venv/bin/python tools/heldout.py round8 $p $v 2>&1 | grep -v conda | cut -c1-200
 '
